@@ -15,6 +15,7 @@ use std::collections::{BTreeSet, HashMap};
 use std::fmt;
 use std::ops::*;
 
+pub mod hashmodel;
 pub mod print;
 pub use print::{Printer, Theory};
 
@@ -783,12 +784,25 @@ pub fn panic_message(e: &(dyn std::any::Any + Send)) -> String {
 }
 
 /// Run `f` once per decision vector (depth-first). A `NotEncodable` panic is propagated.
+thread_local! {
+    static TRUNCATED: std::cell::Cell<bool> = std::cell::Cell::new(false);
+}
+
+/// did the last `explore` on this thread stop at its path budget (the paths it returned are then a strict subset)?
+pub fn truncated() -> bool {
+    TRUNCATED.with(|c| c.get())
+}
+
 pub fn explore<T>(max_paths: usize, mut f: impl FnMut() -> T) -> Vec<Path<T>> {
     let mut out = Vec::new();
     let mut stack: Vec<Vec<bool>> = vec![vec![]];
+    TRUNCATED.with(|c| c.set(false));
     while let Some(prefix) = stack.pop() {
         if out.len() >= max_paths {
-            not_encodable("path budget exceeded");
+            // the explored paths are still decided (a violation on one of them is a violation); the caller reports the
+            // case as inconclusive because the others were not looked at
+            TRUNCATED.with(|c| c.set(true));
+            break;
         }
         let k = prefix.len();
         with(|a| {
